@@ -23,7 +23,11 @@ class Ref(Expression):
         return self.name
 
     def _compile(self, out, flags):
-        if flags.uses_context and not self.is_local:
+        if self.name.startswith('super.'):
+            # The parent of the grammar that contains the reference, not of
+            # the grammar through which the parse was started.
+            func = Code(self.resolved)
+        elif flags.uses_context and not self.is_local:
             func = Code(f'_ctx.{self.resolved}')
         else:
             func = Code(self.resolved)
